@@ -12,7 +12,7 @@ from vf import runner, gen, calls, refsem as R
 LEVEL = "model_checking"
 OPS = ["id", "sum", "add", "dot", "get_at", "add_at", "flip", "argmax"]
 PLAN_QUICK = [(["id", "sum", "flip", "argmax"], 2, 1), (["add", "dot"], 2, 0), (["add"], 1, 1), (["get_at", "add_at"], 2, 0)]
-PLAN_THOROUGH = [(["id", "sum", "flip", "argmax", "softmax", "roll"], 3, 1), (["add", "dot", "where"], 2, 1), (["get_at", "add_at", "set_at"], 2, 1)]
+PLAN_THOROUGH = [(["id", "sum", "flip", "argmax"], 3, 1), (["softmax", "roll", "sort"], 2, 1), (["add", "dot"], 2, 1), (["get_at", "add_at"], 2, 1)]
 SIGNATURES = ["shape", "shape,name", "shape,*,arg_index", "shape,name=None,arg_index=None,signature=None", "shape,**kw", "callable-object", "wrapped:shape", "wrapped:shape,name", "builtin"]
 BEHAVIOURS = ["correct", "wrong-shape", "wrong-type", "none", "raises"]
 
